@@ -371,7 +371,7 @@ class DFreeScorer(WeightLengthScorer):
         # Total term weight and total field length are global statistics, so
         # get them from the top-level searcher
         parent = searcher.get_parent()  # Returns self if no parent
-        self.cf = parent.weight(fieldname, text)
+        self.cf = parent.frequency(fieldname, text)
         self.fl = parent.field_length(fieldname)
 
         self.qf = qf
